@@ -25,6 +25,8 @@ import (
 	"sync"
 	"time"
 
+	"github.com/alicebob/miniredis/v2"
+
 	"tunnox-core/internal/app/server"
 	"tunnox-core/internal/cloud/managers"
 	"tunnox-core/internal/cloud/models"
@@ -165,11 +167,51 @@ type ipmBox struct {
 	st        storage.Storage
 	ctx       context.Context
 	onRestart func(*security.IPManager)
+	close     func()
 }
 
-func newIpmBox(ctx context.Context) *ipmBox {
-	st := storage.NewMemoryStorage(ctx)
-	return &ipmBox{m: security.NewIPManager(st, ctx), st: st, ctx: ctx}
+// caseBackend picks the storage backend of a case from the case itself (so a replay uses the same):
+// memory, Redis (miniredis), or the hybrid storage over Redis — the backends a deployment shares
+// between nodes.  miniredis' clock does not advance: persisted temporary entries never TTL out of it,
+// which is harmless (an expired record is inert) and is exactly what the model assumes.
+func caseBackend(toks []string) string {
+	h := uint32(2166136261)
+	for _, t := range toks {
+		for i := 0; i < len(t); i++ {
+			h = (h ^ uint32(t[i])) * 16777619
+		}
+	}
+	switch h % 5 {
+	case 0:
+		return "redis"
+	case 1:
+		return "hybrid-redis"
+	}
+	return "memory"
+}
+
+func newIpmBox(ctx context.Context, backend string) *ipmBox {
+	b := &ipmBox{ctx: ctx, close: func() {}}
+	switch backend {
+	case "redis", "hybrid-redis":
+		mr, err := miniredis.Run()
+		if err != nil {
+			panic(err)
+		}
+		b.close = mr.Close
+		rs, err := storage.NewRedisStorage(ctx, &storage.RedisConfig{Addr: mr.Addr()})
+		if err != nil {
+			panic(err)
+		}
+		b.st = rs
+		if backend == "hybrid-redis" {
+			b.st = storage.NewHybridStorage(ctx, rs, nil, nil)
+		}
+	default:
+		b.st = storage.NewMemoryStorage(ctx)
+	}
+	b.m = security.NewIPManager(b.st, ctx)
+	return b
 }
 
 func ipmOp(box *ipmBox, tl *timeline, ps []string) string {
@@ -237,6 +279,9 @@ func runBF(toks []string, scale int) (string, error) {
 	defer cancel()
 	var p *security.BruteForceProtector
 	return runTimeline(evs, scale, func(tl *timeline, e event) string {
+		if p == nil && toks[0] == "default" {
+			p = security.NewBruteForceProtector(nil, ctx)
+		}
 		if p == nil {
 			p = security.NewBruteForceProtector(&security.BruteForceConfig{
 				MaxFailures: atoi(toks[0]), TimeWindow: tl.dur(atoi(toks[1])), BanDuration: tl.dur(atoi(toks[2])),
@@ -253,7 +298,8 @@ func runIP(toks []string, scale int) (string, error) {
 	}
 	ctx, cancel := context.WithCancel(context.Background())
 	defer cancel()
-	box := newIpmBox(ctx)
+	box := newIpmBox(ctx, caseBackend(toks))
+	defer box.close()
 	return runTimeline(evs, scale, func(tl *timeline, e event) string { return ipmOp(box, tl, e.ps) })
 }
 
@@ -269,6 +315,9 @@ func runRL(toks []string, scale int) (string, error) {
 	defer cancel()
 	var r *security.RateLimiter
 	return runTimeline(evs, scale, func(tl *timeline, e event) string {
+		if r == nil && toks[0] == "default" {
+			r = security.NewRateLimiter(nil, nil, ctx)
+		}
 		if r == nil {
 			// the rate is per real second: stretching the time line by `scale` divides it
 			r = newLimiter(atoi(toks[0]), atoi(toks[1]), tl.dur(atoi(toks[2])), scale, ctx)
@@ -372,8 +421,14 @@ func classify(r *packet.HandshakeResponse, conn *fakeConn) string {
 }
 
 const knownClient = 7
+const expiredClient = 8
 
-func runHS(toks []string, scale int) (string, error) {
+type strAddr string
+
+func (s strAddr) Network() string { return "verif" }
+func (s strAddr) String() string  { return string(s) }
+
+func runHS(toks []string, scale int, defaults bool) (string, error) {
 	evs, err := parseEvents(toks[8:])
 	if err != nil {
 		return "", err
@@ -392,23 +447,33 @@ func runHS(toks []string, scale int) (string, error) {
 	if err != nil {
 		return "", err
 	}
-	cc := &fakeCC{known: map[int64]*models.ClientConfig{knownClient: {SecretKeyEncrypted: enc}}}
+	longAgo := time.Now().Add(-time.Hour)
+	cc := &fakeCC{known: map[int64]*models.ClientConfig{knownClient: {SecretKeyEncrypted: enc},
+		expiredClient: {SecretKeyEncrypted: enc, ExpiresAt: &longAgo}}}
 	var env *secEnv
 	var box *ipmBox
 	var h *server.ServerAuthHandler
+	defer0 := func() {}
+	defer func() { defer0() }()
 	return runTimeline(evs, scale, func(tl *timeline, e event) string {
 		if env == nil {
 			env = &secEnv{}
-			env.bf = security.NewBruteForceProtector(&security.BruteForceConfig{
-				MaxFailures: atoi(toks[0]), TimeWindow: tl.dur(atoi(toks[1])), BanDuration: tl.dur(atoi(toks[2])),
-				PermanentBanAt: atoi(toks[3]), CleanupInterval: time.Hour}, ctx)
-			box = newIpmBox(ctx)
+			if defaults {
+				env.bf = security.NewBruteForceProtector(nil, ctx)
+				env.rl = security.NewRateLimiter(nil, nil, ctx)
+			} else {
+				env.bf = security.NewBruteForceProtector(&security.BruteForceConfig{
+					MaxFailures: atoi(toks[0]), TimeWindow: tl.dur(atoi(toks[1])), BanDuration: tl.dur(atoi(toks[2])),
+					PermanentBanAt: atoi(toks[3]), CleanupInterval: time.Hour}, ctx)
+				env.rl = newLimiter(atoi(toks[4]), atoi(toks[5]), tl.dur(atoi(toks[6])), scale, ctx)
+			}
+			box = newIpmBox(ctx, caseBackend(toks))
+			defer0 = box.close
 			env.ipm = box.m
 			box.onRestart = func(m *security.IPManager) {
 				env.ipm = m
 				h = server.NewServerAuthHandler(cc, &session.SessionManager{}, env.bf, env.ipm, env.rl, skm)
 			}
-			env.rl = newLimiter(atoi(toks[4]), atoi(toks[5]), tl.dur(atoi(toks[6])), scale, ctx)
 			h = server.NewServerAuthHandler(cc, &session.SessionManager{}, env.bf, env.ipm, env.rl, skm)
 		}
 		switch e.ps[0] {
@@ -426,18 +491,45 @@ func runHS(toks []string, scale int) (string, error) {
 			panic("unsupported handshake event " + e.ps[0])
 		}
 		a := atoi(e.ps[1])
-		conn := &fakeConn{addr: &net.TCPAddr{IP: net.IPv4(byte(a>>24), byte(a>>16), byte(a>>8), byte(a)), Port: 40000}}
+		variant := ""
+		if len(e.ps) > 3 {
+			variant = e.ps[3]
+		}
+		ip4 := net.IPv4(byte(a>>24), byte(a>>16), byte(a>>8), byte(a))
+		var addr net.Addr
+		switch {
+		case strings.HasPrefix(variant, "tcp4"): // 4-byte form
+			addr = &net.TCPAddr{IP: ip4.To4(), Port: 40000}
+		case strings.HasPrefix(variant, "udp"): // QUIC / KCP connections
+			addr = &net.UDPAddr{IP: ip4.To4(), Port: 40000}
+		case strings.HasPrefix(variant, "str"): // any other net.Addr: "host:port" text
+			addr = strAddr(ipStr(a) + ":40000")
+		default: // 16-byte IPv4-in-IPv6 form, what a dual-stack listener reports
+			addr = &net.TCPAddr{IP: ip4, Port: 40000}
+		}
+		conn := &fakeConn{addr: addr}
 		call := func(req *packet.HandshakeRequest) string {
 			r, _ := h.HandleHandshake(conn, req)
 			return classify(r, conn)
 		}
+		anonToken := "new-client"
+		if strings.HasSuffix(variant, ".anon") {
+			anonToken = "anonymous:device-1"
+		}
 		switch e.ps[2] {
 		case "anonOk":
 			cc.anonFail = false
-			return call(&packet.HandshakeRequest{ClientID: 0, Token: "new-client", Version: "3", Protocol: "tcp"})
+			return call(&packet.HandshakeRequest{ClientID: 0, Token: anonToken, Version: "3", Protocol: "tcp"})
 		case "anonFail":
+			if strings.HasSuffix(variant, ".tok") {
+				// ClientID 0 with a token that is no registration request: rate-limited like a
+				// registration, then "client 0 not found" → failure recorded
+				return call(&packet.HandshakeRequest{ClientID: 0, Token: "jwt-from-an-old-client", Version: "3", Protocol: "tcp"})
+			}
 			cc.anonFail = true
-			return call(&packet.HandshakeRequest{ClientID: 0, Token: "new-client", Version: "3", Protocol: "tcp"})
+			return call(&packet.HandshakeRequest{ClientID: 0, Token: anonToken, Version: "3", Protocol: "tcp"})
+		case "expired":
+			return call(&packet.HandshakeRequest{ClientID: expiredClient, Version: "3"})
 		case "unknown":
 			return call(&packet.HandshakeRequest{ClientID: 999, Version: "3"})
 		case "noChallenge":
@@ -488,7 +580,15 @@ func attempt(caseStr string, scale int) (obs string, err error) {
 	case "rl":
 		return runRL(toks[1:], scale)
 	case "hs":
-		return runHS(toks[1:], scale)
+		return runHS(toks[1:], scale, false)
+	// the shipped defaults: components built with a nil config, exactly as components_session.go does.
+	// Their durations are real minutes, so these time lines are never stretched.
+	case "bfd":
+		return runBF(append([]string{"default", "0", "0", "0"}, toks[1:]...), 1)
+	case "rld":
+		return runRL(append([]string{"default", "0", "0", "1000"}, toks[1:]...), 1)
+	case "hsd":
+		return runHS(append([]string{"0", "0", "0", "0", "0", "0", "0", "1000"}, toks[1:]...), 1, true)
 	}
 	return "bad-case", nil
 }
